@@ -6075,23 +6075,26 @@ impl<Front: SocketHandler> ConnectionH2<Front> {
         } else if let Some(global_stream_id) = self.streams.get(&stream_id).copied() {
             let stream = &mut context.streams[global_stream_id];
             self.attribute_bytes_to_stream(&mut stream.metrics);
-            let stream_window_before = stream.window;
-            if let Some(window) = stream.window.checked_add(increment) {
-                if stream.window <= 0 && window > 0 {
+            // The window this peer controls: the frontend's or the backend's
+            // send window of the stream, never the other connection's.
+            let stream_window = stream.send_window_mut(&self.position);
+            let stream_window_before = *stream_window;
+            if let Some(window) = stream_window_before.checked_add(increment) {
+                if stream_window_before <= 0 && window > 0 {
                     self.readiness.arm_writable();
                 }
-                stream.window = window;
+                *stream_window = window;
                 // Same replenish invariant as the connection window, applied to
                 // the per-stream send window (RFC 9113 §6.9.1). Overflow past
                 // 2^31-1 is rejected by `checked_add` and handled as a
                 // FLOW_CONTROL_ERROR RST_STREAM below.
                 debug_assert_eq!(
-                    stream.window,
+                    *stream_window,
                     stream_window_before + increment,
                     "stream window must increase by exactly the increment"
                 );
                 debug_assert!(
-                    stream.window > stream_window_before,
+                    *stream_window > stream_window_before,
                     "a positive WINDOW_UPDATE must strictly grow the stream window"
                 );
                 debug!(
@@ -6099,7 +6102,7 @@ impl<Front: SocketHandler> ConnectionH2<Front> {
                     log_context!(self),
                     stream_id,
                     increment,
-                    stream.window
+                    window
                 );
             } else {
                 let result = self.reset_stream(
@@ -6150,13 +6153,13 @@ impl<Front: SocketHandler> ConnectionH2<Front> {
         let mut open_window = false;
         // Only update windows for streams owned by this connection
         for &global_stream_id in self.streams.values() {
-            let stream = &mut context.streams[global_stream_id];
+            let stream_window = context.streams[global_stream_id].send_window_mut(&self.position);
             // RFC 9113 §6.9.2: changes to SETTINGS_INITIAL_WINDOW_SIZE can cause
             // stream windows to exceed 2^31-1, which is a flow control error.
-            match stream.window.checked_add(delta) {
+            match stream_window.checked_add(delta) {
                 Some(new_window) => {
-                    open_window |= stream.window <= 0 && new_window > 0;
-                    stream.window = new_window;
+                    open_window |= *stream_window <= 0 && new_window > 0;
+                    *stream_window = new_window;
                 }
                 None => return true,
             }
@@ -6570,7 +6573,7 @@ impl<Front: SocketHandler> ConnectionH2<Front> {
         }
     }
 
-    pub fn start_stream<L>(&mut self, stream: GlobalStreamId, _context: &mut Context<L>) -> bool
+    pub fn start_stream<L>(&mut self, stream: GlobalStreamId, context: &mut Context<L>) -> bool
     where
         L: ListenerHandler + L7ListenerHandler,
     {
@@ -6638,6 +6641,13 @@ impl<Front: SocketHandler> ConnectionH2<Front> {
             return false;
         };
         self.streams.insert(stream_id, stream);
+        // RFC 9113 §6.9.2: a new stream starts with the initial window size
+        // THIS peer advertised. The stream slot was created by the frontend
+        // connection, whose own send window must not leak into this one.
+        if let Some(slot) = context.streams.get_mut(stream) {
+            *slot.send_window_mut(&self.position) =
+                i32::try_from(self.peer_settings.settings_initial_window_size).unwrap_or(i32::MAX);
+        }
         self.stream_last_activity_at
             .insert(stream_id, Instant::now());
         self.readiness.arm_writable();
